@@ -345,8 +345,86 @@ impl SubCheck for SetIter {
     }
 }
 
+pub struct FromArray;
+impl SubCheck for FromArray {
+    type Case = Vec<u8>;
+    fn name(&self) -> &'static str {
+        "from_array"
+    }
+    fn rule(&self) -> &'static str {
+        "case = list of 0..=24 weekday indices (duplicates allowed); WeekdaySet::from_array over an array of exactly that length and FromIterator over the same list = the set of distinct members; non-trivial = the list holds a duplicate or more than seven entries"
+    }
+    fn strategy(&self) -> Option<BoxedStrategy<Self::Case>> {
+        Some(prop_oneof![
+            3 => proptest::collection::vec(0u8..7, 0..=24),
+            // one weekday repeated, a different one somewhere
+            1 => (0u8..7, 0u8..7, 1usize..=24, any::<proptest::sample::Index>()).prop_map(|(a, b, n, ix)| {
+                let mut v = vec![a; n];
+                let k = ix.index(n);
+                v[k] = b;
+                v
+            }),
+        ].boxed())
+    }
+    fn check(&self, v: &Self::Case, obs: &mut Obs) -> Result<(), String> {
+        let exp: u8 = v.iter().fold(0, |m, &i| m | 1 << i);
+        obs.nt_if(v.len() > 7, "more_than_seven_entries");
+        obs.nt_if((exp.count_ones() as usize) < v.len(), "duplicates");
+        obs.label_if(v.iter().enumerate().any(|(k, &i)| k >= 7 && !v[..k].contains(&i)), "new_member_after_index_6");
+        let days: Vec<Weekday> = v.iter().map(|&i| WD[i as usize]).collect();
+        macro_rules! sized {
+            ($($n:literal)*) => {
+                match days.len() {
+                    $($n => {
+                        let arr: [Weekday; $n] = days.clone().try_into().map_err(|_| "harness: array length")?;
+                        call("from_array", || WeekdaySet::from_array(arr))?
+                    })*
+                    _ => return Err("harness: unsupported length".into()),
+                }
+            };
+        }
+        let got = sized!(0 1 2 3 4 5 6 7 8 9 10 11 12 13 14 15 16 17 18 19 20 21 22 23 24);
+        ensure_eq!(mask_of(got), exp, "from_array({v:?})");
+        let it: WeekdaySet = days.iter().copied().collect();
+        ensure_eq!(mask_of(it), exp, "FromIterator({v:?})");
+        ensure_eq!(got.len() as u32, exp.count_ones(), "len of from_array({v:?})");
+        Ok(())
+    }
+}
+
+pub struct MonthLen;
+impl SubCheck for MonthLen {
+    type Case = (i32, u8);
+    fn name(&self) -> &'static str {
+        "month_num_days"
+    }
+    fn rule(&self) -> &'static str {
+        "case = (year, month index); every year of the supported range and ten beyond each end plus i32 extremes x 12 months enumerated; Month::num_days(year) = length of that month under the Gregorian leap rule for supported years, February of an unsupported year = None (other months of unsupported years not judged); Datelike::num_days_in_month of the first day agrees; non-trivial = February, or year outside the supported range"
+    }
+    fn check(&self, &(y, m0): &Self::Case, obs: &mut Obs) -> Result<(), String> {
+        use crate::refmodel::cal;
+        use chrono::Datelike;
+        let month = MONTHS[m0 as usize];
+        let in_range = (cal::MIN_YEAR..=cal::MAX_YEAR).contains(&(y as i64));
+        obs.nt_if(m0 == 1, "february");
+        obs.nt_if(!in_range, "unsupported_year");
+        obs.label_if(m0 == 1 && y % 100 == 0, "century_february");
+        obs.label_if(y <= 0, "year_le_0");
+        let got = call("Month::num_days", || month.num_days(y))?;
+        if in_range {
+            let exp = cal::days_in_month(y as i64, m0 as u32 + 1);
+            ensure_eq!(got.map(u32::from), Some(exp), "{month:?}.num_days({y})");
+            let d = chrono::NaiveDate::from_ymd_opt(y, m0 as u32 + 1, 1).ok_or_else(|| format!("from_ymd_opt({y}, {}, 1) refused", m0 + 1))?;
+            ensure_eq!(call("num_days_in_month", || d.num_days_in_month())? as u32, exp, "num_days_in_month of {d:?}");
+        } else if m0 == 1 {
+            ensure_eq!(got, None, "February.num_days({y}) for a year outside the supported range");
+        }
+        Ok(())
+    }
+}
+
 pub fn subs() -> Vec<Box<dyn DynSub>> {
-    vec![Box::new(Cycle), Box::new(Num), Box::new(Text), Box::new(SetPair), Box::new(SetIter)]
+    vec![Box::new(Cycle), Box::new(Num), Box::new(Text), Box::new(SetPair), Box::new(SetIter), Box::new(FromArray), Box::new(MonthLen)]
 }
 
 pub fn run(ctx: &Ctx) {
@@ -360,6 +438,17 @@ pub fn run(ctx: &Ctx) {
     }, true, true);
     ctx.run_enum_opt(&SetPair, 128, |a| (0u8..128).map(move |b| (a as u8, b)), true, true);
     ctx.run_enum_opt(&SetIter, 128, |a| (0u8..7).flat_map(move |s| (0u8..128).map(move |p| (a as u8, s, p))), true, true);
+    ctx.run_prop(&FromArray, ctx.n(400_000, 20_000_000));
+    ctx.run_enum_opt(&MonthLen, 64, |c| {
+        let (lo, hi) = (-262_153i64, 262_152i64);
+        let per = (hi - lo + 1) / 64 + 1;
+        let a = lo + c as i64 * per;
+        let mut ys: Vec<i32> = (a..(a + per).min(hi + 1)).map(|y| y as i32).collect();
+        if c == 0 {
+            ys.extend([i32::MIN, i32::MIN + 1, i32::MAX - 1, i32::MAX, -1_000_000, 1_000_000, -400_000, 400_000]);
+        }
+        ys.into_iter().flat_map(|y| (0u8..12).map(move |m| (y, m)))
+    }, true, true);
     // integers: every value in [-70000, 70000] and the 2^k neighbourhoods, then random
     ctx.run_enum_opt(&Num, 64, |c| {
         let mut v: Vec<NumCase> = vec![];
